@@ -14,6 +14,11 @@ def calculate_dominators(nodes, entry_node):
     while change:
         change = False
         for node in nodes:
+            if node is entry_node:
+                # The entry node is dominated only by itself, also when
+                # it has predecessors (a jump back to the entry).
+                continue
+
             # A node is dominated by itself and by the intersection of
             # the dominators of its predecessors
             pred_doms = [_dom[p] for p in node.predecessors]
